@@ -28,7 +28,7 @@ ALL_PUZZLES = ["sudoku", "slitherlink", "masyu", "yajilin", "nurikabe", "heyawak
 
 # (shards, cases per shard) of the large-board layer; cases cost 0.1 - 4 s each (7 solver calls)
 LARGE_QUICK = {"fillomino": (1, 6), "fivecells": (1, 5), "sudoku": (1, 5), "nurikabe": (1, 6), "view": (1, 6),
-               "norinori": (1, 30), "putteria": (1, 30), "lits": (1, 30), "aquarium": (1, 30), "akari": (2, 25),
+               "norinori": (1, 30), "putteria": (2, 10), "lits": (1, 30), "aquarium": (1, 30), "akari": (2, 25),
                "simpleloop": (1, 15), "masyu": (2, 20), "geradeweg": (2, 16), "castle_wall": (1, 14), "slitherlink": (1, 10),
                "yajilin": (1, 12), "compass": (1, 10), "star_battle": (1, 12), "doppelblock": (1, 8), "shakashaka": (1, 10), "creek": (1, 10), "heyawake": (2, 14)}
 LARGE_THOROUGH = {"fillomino": (8, 20), "fivecells": (8, 20), "sudoku": (8, 25)}
@@ -144,8 +144,11 @@ def shard_large(arg):
                 sample=dict(puzzle=name, layer="large", inst=inst) if known and len(json.dumps(inst)) < 500 else None)
 
     # model-mode cases cost seconds each: no shrinking in the quick tier (the unshrunk case replays as well)
+    import time
+    t0 = time.time()
     hyp_search(st, large.case_strategy(ls), b, seed=seed, max_examples=n, check="c11.large." + name,
                shrink=thorough, rounds=2, round_floor=max(4, n // 2))
+    st.extra["large_seconds:" + name] = round(st.extra.get("large_seconds:" + name, 0) + time.time() - t0, 1)
     return st
 
 
